@@ -28,6 +28,16 @@ PROFILES = [
 
 def witnesses():
     w = []
+    # a call whose handler executes a loop signal fails with an error: it never yields a signal to the caller's loop, and the
+    # method that called it keeps its own frame (其) afterwards
+    for sig in (Break(), Continue()):
+        w.append((([], [Func("F", [], [Throw("异常", [Str("x")]), Return(Num(1))], [("异常", [sig])]),
+                        Class("C", [("P", Num(7))],
+                              [("Run", [], [Decl([(False, ["I"], Num(0))]),
+                                            While(Logic("lt", Var("I"), Num(2)), [ExprS(AssignVar("I", Arith("+", Var("I"), Num(1)))), Display(Str("in"), Var("I")),
+                                                                                  ExprS(Call("F", [])), Display(Str("after-call"))]),
+                                            Return(ThisProp("P"))], [("异常", [Display(Str("caught"), ThisProp("P")), Return(ThisProp("P"))])])]),
+                        Decl([(False, ["O"], New("C", []))]), Display(Method(Var("O"), [("Run", [])])), Return(Member(Var("O"), "P"))], []), None, "witness"))
     # a failure handled twice: the callee's own handler ends with an error, an outer method's handler catches that one and
     # completes; the method that called the outer one then goes on with its own 其 and return slot
     for rethrow in ([Throw("异常", [Str("again")])], [Display(Arith("/", Num(1), Num(0)))]):
